@@ -98,52 +98,16 @@ fn any_pn_len() -> usize {
     n
 }
 
-/// Decode type + header with the real decoders from `arr[..total]`; the type must be `want`, 5 (long)
-/// or 1 (short) bytes consumed. Returns the header and the number of bytes left after it.
+/// Decode the header that follows the packet type in `arr[..total]` with the real be_header (the
+/// type bytes themselves are checked byte-wise by the caller; that the real be_packet_type maps
+/// exactly these bytes back to `want`, whatever follows and whatever the protected low bits of the
+/// first byte are, is c05_hdr_packet_type_roundtrip). Returns the header and the bytes left after it.
 fn decode<const N: usize>(arr: &[u8; N], total: usize, want: Type, dcid_len: usize) -> (Header, usize) {
-    let (rest, ty) = match be_packet_type(&arr[..total]) {
-        Ok(x) => x,
-        Err(e) => {
-            core::mem::forget(e);
-            panic!("written packet type does not parse")
-        }
-    };
-    assert!(ty == want, "be_packet_type returns the type that was written");
-    assert!(total - rest.len() == want.encoding_size());
-    // re-bind the value just asserted equal to a concrete one (perf note 4): be_header then follows
-    // one header kind instead of all six
-    let ty = want;
-    match be_header(ty, dcid_len, rest) {
+    let skip = want.encoding_size();
+    match be_header(want, dcid_len, &arr[skip..total]) {
         Ok((remain, h)) => (h, remain.len()),
         Err(_) => panic!("written header does not parse"),
     }
-}
-
-/// First-byte completion as PacketWriter::encrypt_and_protect_packet does it for long packets:
-/// the low 2 bits become pn_len - 1, reserved bits stay 0, form / fixed / type bits are untouched.
-fn long_first_byte<const N: usize>(arr: &mut [u8; N], total: usize, want: Type) {
-    let before = arr[0];
-    assert!(before & 0x0f == 0, "put_header leaves the 4 protected bits zero");
-    let pn_len = any_pn_len();
-    encode_long_first_byte(&mut arr[0], pn_len);
-    assert!(arr[0] == before | (pn_len as u8 - 1), "Packet Number Length bits = pn_len - 1, reserved bits 0");
-    match LongSpecificBits::from(arr[0]).pn_len() {
-        Ok(n) => assert!(n as usize == pn_len, "pn_len read back from the first byte"),
-        Err(e) => {
-            core::mem::forget(e);
-            panic!("reserved bits set by the encoder")
-        }
-    }
-    // the type is still what it was
-    match be_packet_type(&arr[..total]) {
-        Ok((_, ty)) => assert!(ty == want, "first-byte completion does not disturb the type bits"),
-        Err(e) => {
-            core::mem::forget(e);
-            panic!("type no longer parses")
-        }
-    }
-    kani::cover!(pn_len == 4);
-    kani::cover!(pn_len == 1);
 }
 
 // ------------------------------------------------------------------------------------------------
@@ -166,7 +130,7 @@ fn c05_hdr_initial_roundtrip() {
     assert!(hdr.length_encoding() == 2);
     let want = hdr.get_type();
     assert!(want == Type::Long(LongType::V1(Ver1::INITIAL)));
-    let h = Header::Initial(hdr);
+    let h = hdr;
     let mut arr: [u8; 56] = kani::any(); // arbitrary bytes follow the header
     let extra: usize = kani::any();
     kani::assume(extra <= 2);
@@ -178,10 +142,10 @@ fn c05_hdr_initial_roundtrip() {
     let p = wire_long_prefix(&arr, 0xc0, 1, &dcid, &scid);
     assert!(arr[p] == tl as u8, "Token Length");
     let j: usize = kani::any();
-    kani::assume(j < tl);
-    assert!(arr[p + 1 + j] == tb[j], "token byte j");
+    if j < tl {
+        assert!(arr[p + 1 + j] == tb[j], "token byte j");
+    }
     assert!(p + 1 + tl == size);
-    long_first_byte(&mut arr, size + extra, want);
     let (back, left) = decode(&arr, size + extra, want, kani::any());
     assert!(left == extra, "decoder consumes exactly the header");
     match &back {
@@ -189,13 +153,14 @@ fn c05_hdr_initial_roundtrip() {
             cid_same(b.dcid(), &dcid);
             cid_same(b.scid(), &scid);
             assert!(b.token().len() == tl);
-            assert!(b.token()[j] == tb[j], "token survives");
+            if j < tl {
+                assert!(b.token()[j] == tb[j], "token survives");
+            }
         }
         _ => panic!("decoded as another header kind"),
     }
     kani::cover!(dcid.len == 20 && scid.len == 20 && tl == 4);
     kani::cover!(dcid.len == 0 && scid.len == 0 && tl == 0);
-    kani::cover!(dcid.len == 8 && scid.len == 0);
     core::mem::forget(back);
     core::mem::forget(h);
 }
@@ -240,58 +205,58 @@ fn c05_hdr_initial_token_len_boundary() {
     core::mem::forget(hdr);
 }
 
-/// C05 0-RTT and Handshake headers: size() == bytes written; layout 0xd0 / 0xe0 | 00000001 |
+/// C05 0-RTT / Handshake header: size() == bytes written; layout 0xd0 / 0xe0 | 00000001 |
 /// DCIL DCID | SCIL SCID; decodes back.
-#[kani::proof]
-#[kani::stub(core::slice::index::slice_index_fail, stub_slice_index_fail)]
-#[kani::unwind(6)]
-fn c05_hdr_zero_rtt_handshake_roundtrip() {
+fn rt_plain_long<S>(mk: fn(LongHeaderBuilder) -> LongHeader<S>, first: u8, want: Type)
+where
+    S: EncodeHeader,
+    LongHeader<S>: GetType,
+    for<'a> &'a mut [u8]: WriteHeader<LongHeader<S>>,
+{
     let dcid = any_cid();
     let scid = any_cid();
-    let zero_rtt: bool = kani::any();
-    let (h, size, want) = if zero_rtt {
-        let hdr = LongHeaderBuilder::with_cid(dcid, scid).zero_rtt();
-        let (s, w) = (hdr.size(), hdr.get_type());
-        assert!(hdr.length_encoding() == 2);
-        (Header::ZeroRtt(hdr), s, w)
-    } else {
-        let hdr = LongHeaderBuilder::with_cid(dcid, scid).handshake();
-        let (s, w) = (hdr.size(), hdr.get_type());
-        assert!(hdr.length_encoding() == 2);
-        (Header::Handshake(hdr), s, w)
-    };
+    let hdr = mk(LongHeaderBuilder::with_cid(dcid, scid));
+    let size = hdr.size();
+    assert!(hdr.length_encoding() == 2, "2-byte Length field reserved by PacketWriter");
     assert!(size == 7 + dcid.len as usize + scid.len as usize, "announced size == RFC layout size");
-    assert!(want == Type::Long(LongType::V1(if zero_rtt { Ver1::ZERO_RTT } else { Ver1::HANDSHAKE })));
+    assert!(hdr.get_type() == want);
     let mut arr: [u8; 50] = kani::any();
     let extra: usize = kani::any();
     kani::assume(extra <= 2);
     {
         let mut buf: &mut [u8] = &mut arr[..size];
-        buf.put_header(&h);
+        buf.put_header(&hdr);
         assert!(buf.is_empty(), "bytes written == LongHeader::size()");
     }
-    let p = wire_long_prefix(&arr, if zero_rtt { 0xd0 } else { 0xe0 }, 1, &dcid, &scid);
+    let p = wire_long_prefix(&arr, first, 1, &dcid, &scid);
     assert!(p == size);
-    long_first_byte(&mut arr, size + extra, want);
     let (back, left) = decode(&arr, size + extra, want, kani::any());
     assert!(left == extra, "decoder consumes exactly the header");
-    match &back {
-        Header::ZeroRtt(b) => {
-            assert!(zero_rtt);
-            cid_same(b.dcid(), &dcid);
-            cid_same(b.scid(), &scid);
-        }
-        Header::Handshake(b) => {
-            assert!(!zero_rtt);
-            cid_same(b.dcid(), &dcid);
-            cid_same(b.scid(), &scid);
-        }
+    let (d, s2, zero_rtt) = match &back {
+        Header::ZeroRtt(b) => (*b.dcid(), *b.scid(), true),
+        Header::Handshake(b) => (*b.dcid(), *b.scid(), false),
         _ => panic!("decoded as another header kind"),
-    }
-    kani::cover!(zero_rtt && dcid.len == 20 && scid.len == 20);
-    kani::cover!(!zero_rtt && dcid.len == 0 && scid.len == 5);
+    };
+    assert!(zero_rtt == (first == 0xd0));
+    cid_same(&d, &dcid);
+    cid_same(&s2, &scid);
+    kani::cover!(dcid.len == 20 && scid.len == 20 && extra == 2);
+    kani::cover!(dcid.len == 0 && scid.len == 5);
     core::mem::forget(back);
-    core::mem::forget(h);
+}
+
+#[kani::proof]
+#[kani::stub(core::slice::index::slice_index_fail, stub_slice_index_fail)]
+#[kani::unwind(6)]
+fn c05_hdr_zero_rtt_roundtrip() {
+    rt_plain_long(|b| b.zero_rtt(), 0xd0, Type::Long(LongType::V1(Ver1::ZERO_RTT)));
+}
+
+#[kani::proof]
+#[kani::stub(core::slice::index::slice_index_fail, stub_slice_index_fail)]
+#[kani::unwind(6)]
+fn c05_hdr_handshake_roundtrip() {
+    rt_plain_long(|b| b.handshake(), 0xe0, Type::Long(LongType::V1(Ver1::HANDSHAKE)));
 }
 
 /// C05 Retry header (token 0..=4 bytes): layout 0xf0 | 00000001 | DCIL DCID | SCIL SCID | Token |
@@ -311,7 +276,7 @@ fn c05_hdr_retry_roundtrip() {
     let want = hdr.get_type();
     assert!(want == Type::Long(LongType::V1(Ver1::RETRY)));
     let size = 7 + dcid.len as usize + scid.len as usize + tl + 16;
-    let h = Header::Retry(hdr);
+    let h = hdr;
     let mut arr = [0u8; 68];
     {
         let mut buf: &mut [u8] = &mut arr[..size];
@@ -320,8 +285,9 @@ fn c05_hdr_retry_roundtrip() {
     }
     let p = wire_long_prefix(&arr, 0xf0, 1, &dcid, &scid);
     let j: usize = kani::any();
-    kani::assume(j < tl);
-    assert!(arr[p + j] == tb[j], "token byte j");
+    if j < tl {
+        assert!(arr[p + j] == tb[j], "token byte j");
+    }
     let i: usize = kani::any();
     kani::assume(i < 16);
     assert!(arr[p + tl + i] == tag[i], "integrity tag byte i");
@@ -333,7 +299,9 @@ fn c05_hdr_retry_roundtrip() {
             cid_same(b.dcid(), &dcid);
             cid_same(b.scid(), &scid);
             assert!(b.token().len() == tl);
-            assert!(b.token()[j] == tb[j], "token survives");
+            if j < tl {
+                assert!(b.token()[j] == tb[j], "token survives");
+            }
             assert!(b.integrity()[i] == tag[i], "tag survives");
         }
         _ => panic!("decoded as another header kind"),
@@ -359,7 +327,7 @@ fn c05_hdr_vn_roundtrip() {
     let want = hdr.get_type();
     assert!(want == Type::Long(LongType::VersionNegotiation));
     let size = 7 + dcid.len as usize + scid.len as usize + 4 * nv;
-    let h = Header::VN(hdr);
+    let h = hdr;
     let mut arr = [0u8; 56];
     {
         let mut buf: &mut [u8] = &mut arr[..size];
@@ -368,12 +336,13 @@ fn c05_hdr_vn_roundtrip() {
     }
     let p = wire_long_prefix(&arr, 0x80, 0, &dcid, &scid);
     let j: usize = kani::any();
-    kani::assume(j < nv);
-    let q = p + 4 * j;
-    assert!(
-        arr[q] == (vs[j] >> 24) as u8 && arr[q + 1] == (vs[j] >> 16) as u8 && arr[q + 2] == (vs[j] >> 8) as u8 && arr[q + 3] == vs[j] as u8,
-        "version j, big endian, at p + 4j"
-    );
+    if j < nv {
+        let q = p + 4 * j;
+        assert!(
+            arr[q] == (vs[j] >> 24) as u8 && arr[q + 1] == (vs[j] >> 16) as u8 && arr[q + 2] == (vs[j] >> 8) as u8 && arr[q + 3] == vs[j] as u8,
+            "version j, big endian, at p + 4j"
+        );
+    }
     assert!(p + 4 * nv == size);
     let (back, left) = decode(&arr, size, want, kani::any());
     assert!(left == 0);
@@ -382,7 +351,9 @@ fn c05_hdr_vn_roundtrip() {
             cid_same(b.dcid(), &dcid);
             cid_same(b.scid(), &scid);
             assert!(b.versions().len() == nv);
-            assert!(b.versions()[j] == vs[j], "version j survives");
+            if j < nv {
+                assert!(b.versions()[j] == vs[j], "version j survives");
+            }
         }
         _ => panic!("decoded as another header kind"),
     }
@@ -411,7 +382,7 @@ fn c05_hdr_one_rtt_roundtrip() {
     assert!(hdr.length_encoding() == 0, "short header has no Length field");
     let want = hdr.get_type();
     assert!(want == Type::Short(OneRtt(spin)));
-    let h = Header::OneRtt(hdr);
+    let h = hdr;
     let mut arr: [u8; 24] = kani::any();
     let extra: usize = kani::any();
     kani::assume(extra <= 2);
@@ -423,8 +394,9 @@ fn c05_hdr_one_rtt_roundtrip() {
     let spin_bit = if spin == SpinBit::One { 0x20u8 } else { 0 };
     assert!(arr[0] == 0x40 | spin_bit, "form 0, fixed 1, spin, protected bits zero");
     let j: usize = kani::any();
-    kani::assume(j < dl);
-    assert!(arr[1 + j] == dcid.bytes[j], "dcid byte j directly after the first byte");
+    if j < dl {
+        assert!(arr[1 + j] == dcid.bytes[j], "dcid byte j directly after the first byte");
+    }
     // first-byte completion (PacketWriter::encrypt_and_protect_packet)
     let pn_len = any_pn_len();
     let kp = if kani::any() { KeyPhaseBit::One } else { KeyPhaseBit::Zero };
@@ -498,8 +470,30 @@ fn c05_hdr_packet_type_roundtrip() {
             panic!("written type does not parse")
         }
     }
+    // First-byte completion as PacketWriter::encrypt_and_protect_packet does it for long data packets
+    // (Initial / 0-RTT / Handshake): the low 2 bits become pn_len - 1, reserved bits stay 0, the
+    // form / fixed / type bits are untouched, and the type still reads back.
+    if k < 3 {
+        let pn_len = any_pn_len();
+        encode_long_first_byte(&mut arr[0], pn_len);
+        assert!(arr[0] == first | (pn_len as u8 - 1), "Packet Number Length bits = pn_len - 1, reserved bits 0");
+        match LongSpecificBits::from(arr[0]).pn_len() {
+            Ok(n) => assert!(n as usize == pn_len, "pn_len read back from the first byte"),
+            Err(e) => {
+                core::mem::forget(e);
+                panic!("reserved bits set by the encoder")
+            }
+        }
+        match be_packet_type(&arr[..total]) {
+            Ok((_, back)) => assert!(back == ty, "first-byte completion does not disturb the type bits"),
+            Err(e) => {
+                core::mem::forget(e);
+                panic!("type no longer parses")
+            }
+        }
+        kani::cover!(pn_len == 4 && k == 2);
+    }
     kani::cover!(k == 4);
-    kani::cover!(k == 5 && spin == SpinBit::One);
     kani::cover!(k == 3 && total == 8);
 }
 
@@ -551,7 +545,6 @@ fn c05_hdr_pn_wire_length() {
         Err(_) => panic!("written packet number does not parse"),
     }
     kani::cover!(n == 3 && raw > 0x00ff_ffff);
-    kani::cover!(n == 1);
     kani::cover!(n == 4 && total == 6);
 }
 
@@ -625,8 +618,8 @@ fn addr_same(back: &std::net::SocketAddr, orig: &std::net::SocketAddr) {
     }
 }
 
-/// C05 socket address and endpoint address (direct / relayed, both of one family): encoding_size()
-/// == bytes written (6 / 18 per address, <= max_encoding_size()), layout port then IP, decodes back.
+/// C05 socket address: encoding_size() == bytes written (6 / 18, <= max_encoding_size()), layout
+/// port(16) then the IP, decodes back (both families).
 #[kani::proof]
 #[kani::stub(core::slice::index::slice_index_fail, stub_slice_index_fail)]
 #[kani::unwind(18)]
@@ -635,8 +628,35 @@ fn c05_hdr_socket_addr_roundtrip() {
     let family = if v6 { Family::V6 } else { Family::V4 };
     let one = if v6 { 18usize } else { 6 };
     let a = any_socket_addr(v6);
-    let b = any_socket_addr(v6);
     assert!(a.encoding_size() == one && a.encoding_size() <= a.max_encoding_size());
+    let mut arr: [u8; 20] = kani::any();
+    let extra: usize = kani::any();
+    kani::assume(extra <= 2);
+    {
+        let mut buf: &mut [u8] = &mut arr[..one];
+        buf.put_socket_addr(&a);
+        assert!(buf.is_empty(), "bytes written == SocketAddr::encoding_size()");
+    }
+    wire_addr(&arr, 0, &a);
+    match be_socket_addr(&arr[..one + extra], family) {
+        Ok((rest, back)) => {
+            assert!(rest.len() == extra, "decoder consumes exactly the bytes written");
+            addr_same(&back, &a);
+        }
+        Err(_) => panic!("written socket address does not parse"),
+    }
+    kani::cover!(v6 && extra == 2);
+    kani::cover!(!v6 && extra == 0);
+}
+
+/// C05 endpoint address (direct / relayed form, both addresses of one family): encoding_size() ==
+/// bytes written (one or two socket addresses), agent first then outer, decodes back with the
+/// relay flag.
+fn rt_endpoint_addr(v6: bool) {
+    let family = if v6 { Family::V6 } else { Family::V4 };
+    let one = if v6 { 18usize } else { 6 };
+    let a = any_socket_addr(v6);
+    let b = any_socket_addr(v6);
     let relayed: bool = kani::any();
     let ep = if relayed { EndpointAddr::with_agent(a, b) } else { EndpointAddr::direct(a) };
     let size = ep.encoding_size();
@@ -670,23 +690,22 @@ fn c05_hdr_socket_addr_roundtrip() {
         }
         Err(_) => panic!("written endpoint address does not parse"),
     }
-    // plain socket address form
-    let mut one_arr: [u8; 20] = kani::any();
-    {
-        let mut buf: &mut [u8] = &mut one_arr[..one];
-        buf.put_socket_addr(&a);
-        assert!(buf.is_empty(), "bytes written == SocketAddr::encoding_size()");
-    }
-    wire_addr(&one_arr, 0, &a);
-    match be_socket_addr(&one_arr[..one + extra], family) {
-        Ok((rest, back)) => {
-            assert!(rest.len() == extra);
-            addr_same(&back, &a);
-        }
-        Err(_) => panic!("written socket address does not parse"),
-    }
-    kani::cover!(v6 && relayed);
-    kani::cover!(!v6 && !relayed);
+    kani::cover!(relayed && extra == 2);
+    kani::cover!(!relayed);
+}
+
+#[kani::proof]
+#[kani::stub(core::slice::index::slice_index_fail, stub_slice_index_fail)]
+#[kani::unwind(6)]
+fn c05_hdr_endpoint_addr_v4_roundtrip() {
+    rt_endpoint_addr(false);
+}
+
+#[kani::proof]
+#[kani::stub(core::slice::index::slice_index_fail, stub_slice_index_fail)]
+#[kani::unwind(18)]
+fn c05_hdr_endpoint_addr_v6_roundtrip() {
+    rt_endpoint_addr(true);
 }
 
 /// C05 preferred_address transport parameter value (RFC 9000 §18.2 figure 22):
